@@ -256,7 +256,7 @@ impl Server {
         }
 
         if self.clients.len() >= self.config.max_total_connections
-            && self.active_clients.len() >= self.config.max_active_connections
+            || self.active_clients.len() >= self.config.max_active_connections
         {
             // No room in the inn
             let reply = frame::Frame::HandshakeErrorFrame(frame::HandshakeErrorFrame {
